@@ -96,21 +96,38 @@ fn scope_json(s: &StickyIndex) -> (Value, &'static str, Value, String) {
     }
 }
 
-/// widths of the visible units of a text in the configured offset kind (characters by their encoding, embeds count 1)
-fn text_units<T: ReadTxn>(txn: &T, t: &TextRef, kind: OffsetKind) -> Vec<u32> {
+/// visible elements of a text (characters, embeds): (width in UTF-16 units = abstract elements of the specification,
+/// width in the configured offset kind = what the API counts)
+fn text_units<T: ReadTxn>(txn: &T, t: &TextRef, kind: OffsetKind) -> Vec<(u32, u32)> {
     let mut out = Vec::new();
     for d in t.diff(txn, YChange::identity) {
         match &d.insert {
             Out::Any(Any::String(s)) => {
                 for c in s.chars() {
-                    out.push(match kind {
+                    out.push((c.len_utf16() as u32, match kind {
                         OffsetKind::Bytes => c.len_utf8() as u32,
                         OffsetKind::Utf16 => c.len_utf16() as u32,
-                    });
+                    }));
                 }
             }
-            _ => out.push(1),
+            _ => out.push((1, 1)),
         }
+    }
+    out
+}
+
+/// number of visible units (UTF-16 code units of the characters, embeds count 1)
+fn n_units(l: &[(u32, u32)]) -> u32 {
+    l.iter().map(|x| x.0).sum()
+}
+
+/// the gaps of a text that can be addressed: unit indexes of the character boundaries
+fn boundaries(l: &[(u32, u32)]) -> Vec<u32> {
+    let mut out = vec![0];
+    let mut u = 0;
+    for (wu, _) in l {
+        u += wu;
+        out.push(u);
     }
     out
 }
@@ -124,23 +141,34 @@ fn as_text(target: &Out) -> Option<&TextRef> {
     }
 }
 
-/// visible unit index -> offset handed to the API
-fn api_offset<T: ReadTxn>(w: &World, txn: &T, target: &Out, i: u32) -> u32 {
+/// visible unit index -> (unit index of the character boundary at or before it, offset handed to the API)
+fn api_offset<T: ReadTxn>(w: &World, txn: &T, target: &Out, i: u32) -> (u32, u32) {
     match as_text(target) {
         Some(t) => {
-            let u = text_units(txn, t, w.offset);
-            let n = u.len() as u32;
-            let within: u32 = u.iter().take(i.min(n) as usize).sum();
-            // beyond the end: keep the distance in whole units
-            within + i.saturating_sub(n) * if w.offset == OffsetKind::Bytes { 3 } else { 1 }
+            let l = text_units(txn, t, w.offset);
+            let n = n_units(&l);
+            if i >= n {
+                // beyond the end: keep the distance in whole units
+                let total: u32 = l.iter().map(|x| x.1).sum();
+                return (i, total + (i - n) * if w.offset == OffsetKind::Bytes { 3 } else { 1 });
+            }
+            let (mut u, mut a) = (0u32, 0u32);
+            for (wu, wa) in &l {
+                if u + wu > i {
+                    break;
+                }
+                u += wu;
+                a += wa;
+            }
+            (u, a)
         }
-        None => i,
+        None => (i, i),
     }
 }
 
 fn vis_len<T: ReadTxn>(w: &World, txn: &T, target: &Out) -> Option<u32> {
     match target {
-        Out::YText(_) | Out::YXmlText(_) => Some(text_units(txn, as_text(target).unwrap(), w.offset).len() as u32),
+        Out::YText(_) | Out::YXmlText(_) => Some(n_units(&text_units(txn, as_text(target).unwrap(), w.offset))),
         Out::YArray(a) => Some(a.len(txn)),
         Out::YXmlFragment(f) => Some(f.len(txn)),
         Out::YXmlElement(e) => {
@@ -196,9 +224,11 @@ fn create(w: &mut World, st: &Value) -> Value {
             par = json!([id.client.get(), id.clock]);
         }
         len = vis_len(w, &txn, &target).unwrap_or(0);
-        let positions: Vec<u32> = match st["i"].as_u64() {
-            Some(i) => vec![i as u32],
-            None => (0..=len).collect(),
+        let positions: Vec<u32> = match (st["i"].as_u64(), as_text(&target)) {
+            (Some(i), _) => vec![i as u32],
+            // every gap of a text = every character boundary (a position between the halves of a surrogate pair is not one)
+            (None, Some(t)) => boundaries(&text_units(&txn, t, w.offset)),
+            (None, None) => (0..=len).collect(),
         };
         let single = positions.len() == 1 && assocs.len() == 1 && st["i"].is_u64();
         // (index, assoc name, assoc, through StickyIndex::from_type)
@@ -222,7 +252,9 @@ fn create(w: &mut World, st: &Value) -> Value {
                 } else {
                     format!("{}.{}{}", prefix, i, &an[..1])
                 };
-                let off = api_offset(w, &txn, &target, *i);
+                // (an index of the schedule that points into a surrogate pair is rounded down; `i` records the gap really asked for)
+                let (i, off) = api_offset(w, &txn, &target, *i);
+                let i = &i;
                 let one = catch_unwind(AssertUnwindSafe(|| make(&txn, &target, off, *assoc, *via_type)));
                 let mut e = json!({"h": name, "i": i, "off": off, "assoc": an, "via": if *via_type { "type" } else { "index" }, "created": false,
                     "anchor": [0, 0], "scope": "none", "sid": [0, 0], "sname": "", "assoc_api": "", "rtb": false, "rtj": false, "out": "ok"});
@@ -289,17 +321,18 @@ fn create(w: &mut World, st: &Value) -> Value {
     json!({"k": "sticky", "r": r, "call": st, "cont": cont, "par": par, "len": len, "outcome": outcome, "detail": detail, "made": made, "obs": w.observe(ri)})
 }
 
-/// offset in the configured unit -> visible unit index, computed from the actual content (-1: not on a unit boundary)
-fn unit_index(widths: &[u32], raw: u32) -> i64 {
-    let mut acc = 0u32;
-    for (n, wd) in widths.iter().enumerate() {
+/// offset in the configured unit -> visible unit index, computed from the actual content (-1: not on a character boundary)
+fn unit_index(l: &[(u32, u32)], raw: u32) -> i64 {
+    let (mut u, mut acc) = (0u32, 0u32);
+    for (wu, wa) in l {
         if acc == raw {
-            return n as i64;
+            return u as i64;
         }
-        acc += wd;
+        u += wu;
+        acc += wa;
     }
     if acc == raw {
-        widths.len() as i64
+        u as i64
     } else {
         -1
     }
@@ -366,7 +399,7 @@ fn seq_containers(w: &World, ri: usize) -> Vec<(Vec<String>, u32)> {
     let txn = w.reps[ri].doc.transact();
     let mut out = Vec::new();
     if let Some(t) = txn.get_text("t") {
-        out.push((vec!["t".to_string()], text_units(&txn, &t, w.offset).len() as u32));
+        out.push((vec!["t".to_string()], n_units(&text_units(&txn, &t, w.offset))));
     }
     if let Some(a) = txn.get_array("a") {
         out.push((vec!["a".to_string()], a.len(&txn)));
@@ -395,13 +428,13 @@ fn seq_containers(w: &World, ri: usize) -> Vec<(Vec<String>, u32)> {
                     for (j, c2) in f.children(&txn).enumerate() {
                         if let XmlOut::Text(t) = c2 {
                             let tr: &TextRef = t.as_ref();
-                            out.push((vec!["x".into(), format!("#{}", i), format!("#{}", j)], text_units(&txn, tr, w.offset).len() as u32));
+                            out.push((vec!["x".into(), format!("#{}", i), format!("#{}", j)], n_units(&text_units(&txn, tr, w.offset))));
                         }
                     }
                 }
                 XmlOut::Text(t) => {
                     let tr: &TextRef = t.as_ref();
-                    out.push((vec!["x".into(), format!("#{}", i)], text_units(&txn, tr, w.offset).len() as u32));
+                    out.push((vec!["x".into(), format!("#{}", i)], n_units(&text_units(&txn, tr, w.offset))));
                 }
                 _ => {}
             }
